@@ -7,7 +7,14 @@ Subject: the WORD-LEVEL model Model/BMCpp.lean of `cc_util/berlekamp_massey.cc` 
 `_mm_clmulepi64_si128` / `vmull_p64` specified as the 64×64-bit carry-less product
 (`BMCpp.clmul`, shift-and-xor; trusted-base item) and C `int`s as unbounded naturals.
 
-PROVED FOR ALL INPUTS (every byte string, every `n`; no size bound):
+PROVED FOR ALL INPUTS OF THE MODEL (every byte list, every `n`; no size bound IN THE MODEL, whose
+`int`s are unbounded naturals).  The model is the C++ code only within the size limits of its
+`int` variables — `BMCpp.CppSizeOk`: `n ≤ 2^30` (`2 * lfsr_len` must not overflow) and
+`(|seq| + 7) / 8 < 2^31` words (`int size = seq.size()`), i.e. `|seq| ≤ 2^34 - 8` bytes; beyond
+them the real code has signed overflow / truncation and NOTHING is claimed
+(`C14Wrapper.int_quantities_fit`: inside them every `int` quantity is `< 2^31`;
+`C14Wrapper.wrapper_enforces_size_limits`: the Python wrapper enforces all of them except
+`length ≤ 2^30`):
 * `packing`, `packing_bits`: the words built by `LfsrLength` carry the bit string of the bytes
   (bit `k` of the sequence = bit `k mod 8` of byte `k / 8`);
 * `portable_step_simulates`, `cpp_portable_simulates_native`: the portable variant simulates the
@@ -132,9 +139,17 @@ theorem impl_eq (v : Variant) (seq : List UInt8) (n : Nat) (h : n ≤ 8 * seq.le
     show lfsrLengthImplClmul _ _ = _
     rw [lfsrLengthImplClmul_eq _ _ (by rw [hl]; omega), val_wordsOfBytes]
 
-/-- **C++ simulation theorem, both variants, total**: for EVERY byte string and EVERY `n`,
-`LfsrLengthStr(seq, n)` has defined behaviour and returns `-1` if `n < 0` or `n > 8·|seq|`, else
-`LinearComplexityNative(int.from_bytes(seq, "little"), n)`. -/
+/-- **C++ simulation theorem, both variants, total on the model**: for every byte list and every
+`n` the WORD-LEVEL MODEL of `LfsrLengthStr(seq, n)` has defined behaviour and returns `-1` if
+`n < 0` or `n > 8·|seq|`, else `LinearComplexityNative(int.from_bytes(seq, "little"), n)`.
+SIZE LIMITS: this is a statement about the real C++ code only for inputs within
+`BMCpp.CppSizeOk seq.length n` — `n` fits an `int` and `n ≤ 2^30` (so that `2 * lfsr_len` does
+not overflow), and `(|seq| + 7) / 8 < 2^31` words (`int size = seq.size()`, `int j <
+sc.size() - 1`), i.e. `|seq| ≤ 2^34 - 8` bytes.  The model's `int`s are unbounded naturals, so the
+Lean statement itself needs no hypothesis, but "EVERY byte string" of the real code would be
+overstated: a longer string or `2^30 < n < 2^31` is outside the claim (signed overflow is
+undefined behaviour in C++).  The hypothesis is explicit in the end-to-end theorem
+`C14Wrapper.linearComplexity_is_shortest_lfsr`. -/
 theorem cpp_simulates_native (v : Variant) (seq : List UInt8) (n : Int) :
     BMCpp.lfsrLengthStr v seq n
       = some (if n < 0 ∨ 8 * (seq.length : Int) < n then -1 else (bmLength (natOfBytes seq) n.toNat : Int)) := by
